@@ -1080,3 +1080,393 @@ func loopRemove(r *engine.Run, rule string, rel string) {
 	}
 	r.OK(rule, rel+"|in-place removals", "-", fmt.Sprintf("%d in-place removals inside loops", n))
 }
+
+// chainStart: a chain of changes A -> B -> C is one change whose Old is A: the
+// Old of a chain is what the cancel-out compares the newest node with (a chain
+// that ends where it started is no change), and what tells a replaced stored node
+// from an intermediate one that was never stored. Where AddChange finds an
+// earlier change under the old node's hash, the record it stores under the new
+// hash keeps that change's Old: it is the found record itself, or a new record
+// whose Old is loaded from it - never the immediate old node.
+func chainStart(r *engine.Run, rule string) {
+	f := r.Fn(rule, pkgUtil, "ChangeCollector", "AddChange")
+	if f == nil {
+		return
+	}
+	var prev ssa.Value
+	var okBit ssa.Value
+	engine.Instrs(f, func(in ssa.Instruction) {
+		lk, ok := in.(*ssa.Lookup)
+		if !ok || !lk.CommaOk {
+			return
+		}
+		if fl := fieldLoadOf(lk.X); fl == nil || fl.Name() != "Changes" {
+			return
+		}
+		for _, ref := range engine.Referrers(lk) {
+			if ex, ok := ref.(*ssa.Extract); ok {
+				if ex.Index == 0 {
+					prev = ex
+				} else {
+					okBit = ex
+				}
+			}
+		}
+	})
+	if prev == nil || okBit == nil {
+		r.Anchor(rule, fmt.Errorf("unresolved anchor: lookup of the earlier change in %s", fn(f)))
+		return
+	}
+	n := 0
+	o := ord{}
+	engine.Instrs(f, func(in ssa.Instruction) {
+		mu, ok := in.(*ssa.MapUpdate)
+		if !ok {
+			return
+		}
+		if fl := fieldLoadOf(mu.Map); fl == nil || fl.Name() != "Changes" {
+			return
+		}
+		inChain := false
+		if facts, ok := engine.FactsOn(f, mu.Block()); ok {
+			for _, ft := range facts {
+				if ft.Kind == "bool" && ft.Truth && ft.A == okBit {
+					inChain = true
+				}
+			}
+		}
+		if !inChain {
+			return
+		}
+		n++
+		good := mu.Value == prev
+		if al, ok := mu.Value.(*ssa.Alloc); ok && !good {
+			for _, ref := range engine.Referrers(al) {
+				fa, ok := ref.(*ssa.FieldAddr)
+				if !ok || engine.FieldOf(fa).Name() != "Old" {
+					continue
+				}
+				for _, r2 := range engine.Referrers(fa) {
+					if st, ok := r2.(*ssa.Store); ok && st.Addr == ssa.Value(fa) {
+						if ld, ok := st.Val.(*ssa.UnOp); ok {
+							if src, ok := ld.X.(*ssa.FieldAddr); ok && src.X == prev && engine.FieldOf(src).Name() == "Old" {
+								good = true
+							}
+						}
+					}
+				}
+			}
+		}
+		r.Check(good, rule, o.next(fn(f)+"|chain keeps its start"), r.P.Pos(mu.Pos()), "the record stored for a follow-up change keeps the Old of the change it continues",
+			"a follow-up change is recorded with the immediate old node as its Old instead of the start of the chain: a node changed and changed back is no longer recognised as unchanged (the cancel-out compares with the wrong node), so a live stored node ends up replaced or on the dead list and the saved state loses it")
+	})
+	if n < 1 {
+		r.Anchor(rule, fmt.Errorf("unresolved anchor: no store of a follow-up change in %s", fn(f)))
+	}
+}
+
+// whoPrune: a node's version is the round that created it, not evidence that it
+// is dead: what may be pruned is what a round's dead-node record names, and only
+// the persistent store keeps such records. The stores that keep none
+// (MemoryNodeDB, LevelNodeDB) therefore delete nothing in PruneBelowVersion: no
+// function reachable from it removes a node (map delete, deleteNode/DeleteNode).
+func whoPrune(r *engine.Run, rule string) {
+	g := r.P.RepoCG()
+	n := 0
+	for _, T := range []string{"MemoryNodeDB", "LevelNodeDB"} {
+		f := r.Fn(rule, pkgUtil, T, "PruneBelowVersion")
+		if f == nil {
+			continue
+		}
+		n++
+		roots := append([]*ssa.Function{f}, f.AnonFuncs...)
+		bad := ""
+		for h := range g.Reach(roots...) {
+			if h.Pkg == nil && h.Parent() == nil {
+				continue
+			}
+			engine.Instrs(h, func(in ssa.Instruction) {
+				c, ok := in.(ssa.CallInstruction)
+				if !ok {
+					return
+				}
+				if b, ok := c.Common().Value.(*ssa.Builtin); ok && b.Name() == "delete" {
+					bad = r.P.Pos(in.Pos())
+				}
+				if c.Common().IsInvoke() && (c.Common().Method.Name() == "DeleteNode" || c.Common().Method.Name() == "MultiDeleteNode") {
+					bad = r.P.Pos(in.Pos())
+				}
+			})
+		}
+		r.Check(bad == "", rule, fn(f)+"|deletes nothing", r.P.Pos(f.Pos()), "a store without dead-node records prunes nothing",
+			"PruneBelowVersion of a store that keeps no dead-node records removes nodes ("+bad+"): it can only go by the node's version - the round that created it -, and a node created before the prune version is still reachable from every later root that did not change it")
+	}
+	if n < 2 {
+		r.Anchor(rule, fmt.Errorf("unresolved anchor: PruneBelowVersion of the record-less stores"))
+	}
+}
+
+// presenceByWeight: an entry of weight 0 is an entry (Update accepts it): it has
+// a key, a value and a hash that its ancestors commit to. No decision of the
+// weighted trie may therefore take "weight is 0" for "nothing there": a copy
+// that skips zero-weight children keeps the original hash over fewer children,
+// a rollback that treats a zero-weight root as empty installs the empty trie.
+//
+// Rule: among the comparisons of core/util/wmpt that involve a weight (a load of
+// a weight field, a Weight() call), none compares it with the constant 0.
+func presenceByWeight(r *engine.Run, rule string) {
+	n := 0
+	for _, f := range funcsOfPkg(r, pkgWMPT) {
+		if len(f.Blocks) == 0 {
+			continue
+		}
+		o := ord{}
+		engine.Instrs(f, func(in ssa.Instruction) {
+			b, ok := in.(*ssa.BinOp)
+			if !ok {
+				return
+			}
+			switch b.Op {
+			case token.EQL, token.NEQ, token.LSS, token.LEQ, token.GTR, token.GEQ:
+			default:
+				return
+			}
+			isW := func(v ssa.Value) bool {
+				if c, ok := v.(*ssa.Call); ok {
+					if _, ok := engine.IsMethodCall(c, "Weight"); ok {
+						return true
+					}
+				}
+				if ld, ok := v.(*ssa.UnOp); ok && ld.Op == token.MUL {
+					if fl := engine.FieldOf(ld.X); fl != nil && fl.Name() == "weight" {
+						return true
+					}
+				}
+				return false
+			}
+			if !isW(b.X) && !isW(b.Y) {
+				return
+			}
+			n++
+			if weightTest(b) {
+				r.Fail(rule, o.next(fn(f)+"|weight compared with 0"), r.P.Pos(b.Pos()), "a weight is compared with 0 to decide whether something is there: entries of weight 0 are entries (their hashes are committed to by their ancestors), so what is skipped, dropped or taken for empty here is content - the copy, export or rollback no longer stands for the state it was taken from")
+			}
+		})
+	}
+	if n < 5 {
+		r.Anchor(rule, fmt.Errorf("unresolved anchor: only %d weight comparisons in core/util/wmpt", n))
+		return
+	}
+	r.OK(rule, "core/util/wmpt|weight comparisons", "-", fmt.Sprintf("%d comparisons involve a weight, none with the constant 0", n))
+}
+
+// domEmptied: removing the last key makes the empty node the root. The empty node
+// is a shared value whose Dirty() is constantly false, so the Commit that follows
+// takes its clean-root shortcut: it is not a commit at all - the collectors are
+// not started and the list of created nodes still holds what the PREVIOUS commit
+// wrote. A RollbackTrie to a copy taken before the removal then purges exactly
+// the nodes of the state it goes back to.
+//
+// Rule: where Update/Delete install the empty node as the root after a removal,
+// the installed root must report Dirty() (or the removal must be recorded for
+// Commit in another way the rule knows: none so far).
+func domEmptied(r *engine.Run, rule string) {
+	n := 0
+	for _, name := range []string{"Update", "Delete"} {
+		f := wfn(r, rule, name)
+		if f == nil {
+			continue
+		}
+		var del *ssa.Call
+		engine.Instrs(f, func(in ssa.Instruction) {
+			if c, ok := in.(*ssa.Call); ok {
+				if sc := c.Call.StaticCallee(); sc != nil && sc.Name() == "delete" && sc.Signature.Recv() != nil {
+					del = c
+				}
+			}
+		})
+		if del == nil {
+			continue
+		}
+		engine.Instrs(f, func(in ssa.Instruction) {
+			st, ok := in.(*ssa.Store)
+			if !ok || !engine.ReachableAfter(del, st) {
+				return
+			}
+			if fld := engine.FieldOf(st.Addr); fld == nil || fld.Name() != "root" {
+				return
+			}
+			v := through(st.Val)
+			ld, ok := v.(*ssa.UnOp)
+			if !ok {
+				return
+			}
+			g, ok := ld.X.(*ssa.Global)
+			if !ok || g.Name() != "emptyNode" {
+				return
+			}
+			n++
+			// Dirty() of the empty node's type
+			dirtyConstFalse := false
+			if d := r.Fn(rule, pkgWMPT, "nilNode", "Dirty"); d != nil {
+				dirtyConstFalse = true
+				for _, ret := range engine.Returns(d) {
+					if k, ok := ret.Results[0].(*ssa.Const); !ok || k.Value == nil || constant.BoolVal(k.Value) {
+						dirtyConstFalse = false
+					}
+				}
+			}
+			r.Check(!dirtyConstFalse, rule, fn(f)+"|emptied root is not dirty", r.P.Pos(st.Pos()), "the root installed after the last key was removed reports Dirty()",
+				"after the last key is removed the root is the shared empty node, whose Dirty() is constantly false: the next Commit takes the clean-root shortcut, starts no collectors and leaves the created list of the previous commit in place - RollbackTrie to a copy taken before the removal purges the very nodes of the state it restores")
+		})
+	}
+	if n < 1 {
+		r.Anchor(rule, fmt.Errorf("unresolved anchor: no install of the empty node after a removal in Update/Delete"))
+	}
+}
+
+// askStore: getNode answers "not found" only after it asked the store: an absent
+// node may arrive later (a sync delivers it, a sibling's merge restores it), so a
+// remembered miss makes the trie - and every child that reads the parent's
+// content through it - blind to content that is there.
+func askStore(r *engine.Run, rule string) {
+	f := r.Fn(rule, pkgUtil, "MerklePatriciaTrie", "getNode")
+	if f == nil {
+		return
+	}
+	var ask ssa.Instruction
+	engine.Instrs(f, func(in ssa.Instruction) {
+		if c, ok := in.(ssa.CallInstruction); ok && invokeOnField(c, "db", "GetNode") {
+			ask = in
+		}
+	})
+	if ask == nil {
+		r.Fail(rule, fn(f)+"|asks the store", r.P.Pos(f.Pos()), "getNode no longer asks the trie's store")
+		return
+	}
+	bad := ""
+	for _, ret := range engine.Returns(f) {
+		if ret.Block().Comment == "recover" || len(ret.Results) != 2 {
+			continue
+		}
+		ev := resultValue(ret, 1)
+		if ev == nil || nilConst(ev) || engine.InstrDominates(ask, ret) {
+			continue
+		}
+		bad = r.P.Pos(ret.Pos())
+	}
+	r.Check(bad == "", rule, fn(f)+"|asks the store", r.P.Pos(ask.Pos()), "an error is returned only after the store was asked",
+		"getNode returns an error ("+bad+") without having asked the store (a remembered miss): a node that was absent once stays absent for this trie although the store has it now, so a child stops seeing its parent's content")
+}
+
+// pureAccessors: the read accessors of the change collector build their answer
+// from the maps on every call and keep nothing: a kept listing has to be
+// invalidated at every place that changes the maps, and the place that takes a
+// re-created node back OUT of the delete set is easily missed - the merge then
+// replays a delete of a live node.
+func pureAccessors(r *engine.Run, rule string) {
+	n := 0
+	for _, name := range []string{"GetChanges", "GetDeletes", "GetStartRoot"} {
+		f := r.Fn(rule, pkgUtil, "ChangeCollector", name)
+		if f == nil {
+			continue
+		}
+		n++
+		recv := f.Params[0]
+		bad := ""
+		engine.Instrs(f, func(in ssa.Instruction) {
+			st, ok := in.(*ssa.Store)
+			if !ok {
+				return
+			}
+			if fa, ok := st.Addr.(*ssa.FieldAddr); ok && fa.X == ssa.Value(recv) {
+				bad = engine.FieldOf(fa).Name() + " at " + r.P.Pos(st.Pos())
+			}
+		})
+		r.Check(bad == "", rule, fn(f)+"|keeps nothing", r.P.Pos(f.Pos()), "the accessor stores nothing into the collector",
+			"a read accessor of the change collector keeps its answer in the collector (field "+bad+"): the kept listing must be dropped wherever the maps change, including where a re-created node is taken out of the delete set - a stale listing makes the merge delete a node the child re-created")
+	}
+	if n < 2 {
+		r.Anchor(rule, fmt.Errorf("unresolved anchor: accessors of ChangeCollector"))
+	}
+}
+
+// decoderRejections: DeserializeNode refuses a record for its SHAPE only: a
+// length that does not fit the kind (len(...) compared), a missing part (nil
+// test), an error of the codec. The trie's own arithmetic on weights is modulo
+// 2^64 on both sides (insert, delete, Serialize), so a decoder that refuses
+// values - a weight sum that wraps, say - rejects exports and stored records the
+// library itself produced.
+func decoderRejections(r *engine.Run, rule string) {
+	f := r.Fn(rule, pkgWMPT, "", "DeserializeNode")
+	if f == nil {
+		return
+	}
+	n := 0
+	for _, g := range opGroup(r, f) {
+		o := ord{}
+		for _, ret := range engine.Returns(g) {
+			if len(ret.Results) == 0 {
+				continue
+			}
+			ev := resultValue(ret, len(ret.Results)-1)
+			if ev == nil || nilConst(ev) || ev.Type().String() != "error" {
+				continue
+			}
+			c, ok := through(ev).(*ssa.Call)
+			if !ok {
+				continue
+			}
+			if sc := c.Call.StaticCallee(); sc == nil || sc.Pkg == nil || (sc.Pkg.Pkg.Path() != "errors" && sc.Pkg.Pkg.Path() != "fmt") {
+				continue
+			}
+			n++
+			bad := ""
+			for _, cnd := range controllingConds(ret.Block()) {
+				for {
+					u, ok := cnd.(*ssa.UnOp)
+					if !ok || u.Op != token.NOT {
+						break
+					}
+					cnd = u.X
+				}
+				okShape := false
+				if b, ok := cnd.(*ssa.BinOp); ok {
+					if nilConst(b.X) || nilConst(b.Y) || hasLen(b.X, 0) || hasLen(b.Y, 0) {
+						okShape = true
+					}
+				}
+				if ex, ok := cnd.(*ssa.Extract); ok {
+					if _, isTA := ex.Tuple.(*ssa.TypeAssert); isTA {
+						okShape = true
+					}
+				}
+				if !okShape {
+					bad = cnd.String() + " at " + r.P.Pos(cnd.Pos())
+				}
+			}
+			r.Check(bad == "", rule, o.next(fn(g)+"|rejection by shape"), r.P.Pos(ret.Pos()), "the record is refused for a length or a missing part",
+				"the node decoder refuses a record on a condition over its VALUES ("+bad+"), not its shape: weights are kept modulo 2^64 by insert, delete and Serialize alike, so a record the library wrote itself (child weights summing past 2^64) is rejected - an export cannot be loaded and a collapsed source cannot reload its own branches")
+		}
+	}
+	if n < 3 {
+		r.Anchor(rule, fmt.Errorf("unresolved anchor: %d rejections in DeserializeNode", n))
+	}
+}
+
+func hasLen(v ssa.Value, d int) bool {
+	if d > 4 {
+		return false
+	}
+	switch x := v.(type) {
+	case *ssa.Call:
+		if b, ok := x.Call.Value.(*ssa.Builtin); ok && b.Name() == "len" {
+			return true
+		}
+	case *ssa.BinOp:
+		return hasLen(x.X, d+1) || hasLen(x.Y, d+1)
+	case *ssa.Convert:
+		return hasLen(x.X, d+1)
+	}
+	return false
+}
